@@ -265,6 +265,11 @@ def shard(ctx: Ctx, acc: Acc) -> None:
 			if i % 3 == 0:
 				mt, kind = mutate(r, text)
 				if mt != text:
+					if i % 2 == 0:
+						# refusals far down the text: line numbers with two and three digits in the summary's quotation
+						pre = r.choice([8, 9, 10, 11, 98, 99, 100, 101, 130])
+						mt = ''.join(f'{r.choice(["x", "y", "zed"])} = {k}\n' for k in range(pre)) + mt
+						acc.see('layout', f'refusal-after-{len(str(pre))}-digit-lines')
 					check_text(acc, {'text': mt, 'features': sorted(g.f), 'mutation': kind})
 		except Exception as e:  # noqa
 			acc.extra.setdefault('harness_errors', []).append(fmt_exc(e) + repr(case)[:600])
